@@ -122,6 +122,17 @@ def _backoff_corrupt(evs, profile):
     return None
 
 
+def _reconnect_corrupt(evs, profile):
+    out = [dict(e) for e in evs]
+    # one more inner call than was made: a finished request is shown as having retried once more
+    for i, e in enumerate(out):
+        if e.get('e') == 'poll' and e.get('res') == 'err' and str(e.get('kind', '')).startswith('maxattempts'):
+            e2 = {k: v for k, v in e.items() if k not in ('kind', 'val')}
+            e2.update({'res': 'pending', 'nd': 1})
+            return out[:i] + [e2]
+    return None
+
+
 COMPONENTS = {
     'bulkhead': {
         'spec_files': ['Bulkhead.tla', 'MC_Bulkhead.tla', 'Trace_Bulkhead.tla'],
@@ -195,13 +206,24 @@ COMPONENTS = {
         'random': {'quick': [{'runs': 0}], 'thorough': [{'runs': 0}]},
         'corrupt': _backoff_corrupt,
     },
+    'reconnect': {
+        'spec_files': ['Reconnect.tla', 'MC_Reconnect.tla', 'Trace_Reconnect.tla'],
+        'mc': {'quick': [{'cfg': 'MC_Reconnect_q.cfg', 'module': 'MC_Reconnect'}], 'thorough': [{'cfg': 'MC_Reconnect.cfg', 'module': 'MC_Reconnect'}]},
+        'gen': {'cfg': 'Gen_Reconnect.cfg', 'module': 'MC_Reconnect', 'num': {'quick': 400, 'thorough': 5000}, 'depth': 50},
+        'trace_module': 'Trace_Reconnect', 'trace_cfg_tmpl': 'Trace_Reconnect.cfg.tmpl',
+        'harness': 'reconnect',
+        'random': {'quick': [{'runs': 1500}], 'thorough': [{'runs': 20000}]},
+        'corrupt': _reconnect_corrupt,
+    },
 }
 
 PROPS = {
     'C01': {'comp': 'bulkhead', 'profile': 'ProfC01', 'drift_profile': 'ProfAll'},
     'C07': {'comp': 'bulkhead', 'profile': 'ProfC07', 'drift_profile': 'ProfAll'},
     'C03': {'comp': 'circuitbreaker', 'profile': 'ProfC03', 'drift_profile': 'ProfAll'},
-    'C09': {'comp': 'circuitbreaker', 'profile': 'ProfC09', 'drift_profile': 'ProfAll'},
+    'C09': {'comp': 'circuitbreaker', 'profile': 'ProfC09', 'drift_profile': 'ProfAll',
+            'random': {'quick': [{'runs': 800, 'args': ['--variant', 'conc']}, {'runs': 1500, 'args': ['--variant', 'storm']}],
+                       'thorough': [{'runs': 10000, 'args': ['--variant', 'conc']}, {'runs': 20000, 'args': ['--variant', 'storm']}]}},
     'C04': {'comp': 'circuitbreaker', 'profile': 'ProfC04',
             'gen': {'cfg': 'Gen_CB_seq.cfg', 'module': 'MC_CircuitBreaker', 'num': {'quick': 400, 'thorough': 5000}, 'depth': 45},
             'random': {'quick': [{'runs': 1200, 'args': ['--variant', 'seq']}], 'thorough': [{'runs': 6000, 'args': ['--variant', 'seq']}, {'runs': 3000, 'size': 'quick', 'args': ['--variant', 'seq']}]}},
@@ -209,6 +231,7 @@ PROPS = {
     'C13': {'parts': [{'comp': 'limit', 'profile': 'bounds'}, {'comp': 'adaptive', 'profile': 'service'}]},
     'C05': {'comp': 'retry', 'profile': 'full'},
     'C14': {'comp': 'backoff', 'profile': 'schedule'},
+    'C16': {'comp': 'reconnect', 'profile': 'full'},
     'C02': {'comp': 'ratelimiter', 'profile': 'ProfC02', 'drift_profile': 'ProfAll'},
     'C15': {'comp': 'ratelimiter', 'profile': 'ProfC15', 'drift_profile': 'ProfAll'},
 }
